@@ -402,6 +402,64 @@ pub fn shard_run(tier: &str, seed: u64, replay_case: Option<usize>, shard: Shard
             }
         }
     }
+    // ---- several uploads and downloads on ONE connection (keep-alive, and pipelined: all requests
+    // written before the first response is read); chunked and Content-Length bodies alternate
+    if replay_case.is_none() && shard.k == (7 % shard.n) {
+        use crate::http::socket_session;
+        for (wi, workers) in [1usize, 3].iter().enumerate() {
+            let web = WebServer::new(Config::default().to_server(), None, InMemoryStorage::new());
+            let srv = match SockServer::start(web, *workers) {
+                Ok(s) => s,
+                Err(e) => {
+                    out.errors.push(format!("socket server: {e}"));
+                    continue;
+                }
+            };
+            let size_sets: Vec<Vec<usize>> = if thorough { vec![vec![5, 3000, 70_000], vec![300_000, 1, 4096, 65_536, 65_537], vec![1 << 20, 17, 2 << 20, 300], vec![8191, 8192, 8193, 16_384, 32_768, 131_072]] } else { vec![vec![5, 3000, 70_000], vec![300_000, 1, 65_537, 4096]] };
+            for (si, sizes) in size_sets.iter().enumerate() {
+                for pipelined in [false, true] {
+                    let clients: Vec<Uuid> = sizes.iter().map(|_| Uuid::new_v4()).collect();
+                    let datas: Vec<Vec<u8>> = sizes.iter().enumerate().map(|(k, n)| PaySpec::new(*n, ((k + si) % PAY_CLASSES as usize) as u8, seed ^ ((si * 100 + k) as u64) << 3 ^ wi as u64).bytes()).collect();
+                    let mut reqs: Vec<HttpReq> = vec![];
+                    for (k, c) in clients.iter().enumerate() {
+                        let mut h = Subject::build_http(*c, &Req::AddVersion { parent: Uuid::nil(), data: datas[k].clone() });
+                        // bodies in three chunks
+                        let n = datas[k].len();
+                        h.chunks = vec![datas[k][..n / 3].to_vec(), datas[k][n / 3..2 * n / 3].to_vec(), datas[k][2 * n / 3..].to_vec()];
+                        reqs.push(h);
+                    }
+                    for c in &clients {
+                        reqs.push(Subject::build_http(*c, &Req::GetChild { parent: Uuid::nil() }));
+                    }
+                    let resps = socket_session(&srv.addr, &reqs, pipelined, Duration::from_secs(60));
+                    cov.evaluations += resps.len() as u64;
+                    cov.hit(format!("one-connection|{}|workers={workers}|requests={}", if pipelined { "pipelined" } else { "keep-alive" }, reqs.len()));
+                    for (k, c) in clients.iter().enumerate() {
+                        let up = Subject::decode_http(&Req::AddVersion { parent: Uuid::nil(), data: vec![] }, &resps[k]);
+                        let down = Subject::decode_http(&Req::GetChild { parent: Uuid::nil() }, &resps[clients.len() + k]);
+                        let ok = match (&up, &down) {
+                            (Resp::AddOk { vid, .. }, Resp::Found { vid: v2, parent, data }) => vid == v2 && parent.is_nil() && *data == datas[k],
+                            _ => false,
+                        };
+                        if !ok {
+                            let what = match &down {
+                                Resp::Found { data, .. } => format!("{} bytes returned for {} uploaded, first difference at {:?}", data.len(), datas[k].len(), first_diff(data, &datas[k])),
+                                o => o.short(),
+                            };
+                            out.found.push(Found {
+                                property: "C06".into(),
+                                signature: "C06:one connection".into(),
+                                msg: format!("{} uploads followed by their downloads on one {} connection ({workers}-worker server): upload #{k} of client {c} ({} bytes) answered {}, download answered {what}", clients.len(), if pipelined { "pipelined" } else { "keep-alive" }, datas[k].len(), up.short()),
+                                replay: json!({"origin": "c06-session", "case": si, "workers": workers, "pipelined": pipelined}),
+                            });
+                            out.cov = cov;
+                            return out;
+                        }
+                    }
+                }
+            }
+        }
+    }
     // ---- an upload that stalls in the middle of its body (slow or flaky link) and then completes
     if replay_case.is_none() && shard.k == (6 % shard.n) {
         use crate::http::socket_request_two_parts;
@@ -458,12 +516,13 @@ pub fn finalize(out: ShardOut, is_replay: bool) -> CheckResult {
     let coverage = json!({
         "evaluations": cov.evaluations,
         "distinct_nontrivial": cov.situations.len(),
-        "rule": "uploads of versions and snapshots: lengths 1,2,3, powers of two +-1, every 9th (quick) / every (thorough) length in the page-overflow neighbourhood 3850..4250, 64 KiB / 128 KiB / 1 MiB +-1, random lengths, 16 MiB (100 MiB -1 / exactly 100 MiB in thorough) x 10 byte classes (zeros, 0xFF, random, digits, numeric-looking text, valid and invalid UTF-8, NUL/CRLF runs, chunk-framing look-alikes) x chunkings (one chunk, 1+rest, rest+1, 3 and 5 chunks, empty chunks around, one byte per chunk, 4095/4096/4097/65536 boundaries, powers of two, random partitions) through the library, the in-process HTTP service (exact chunk delivery), an in-process HttpServer over a real socket (chunked transfer encoding / Content-Length in flushed segments) and the real executable with SQLite; each upload is read back through the same path and compared byte for byte together with its ids; chains start from nil and from non-nil parents; plus pairs of uploads that overlap on a 1- and a 2-worker server (one connection sends half of its body, the other uploads completely in three chunks, the first finishes). distinct_nontrivial = distinct (path, kind, byte class, chunking family, length class).",
+        "rule": "uploads of versions and snapshots: lengths 1,2,3, powers of two +-1, every 9th (quick) / every (thorough) length in the page-overflow neighbourhood 3850..4250, 64 KiB / 128 KiB / 1 MiB +-1, random lengths, 16 MiB (100 MiB -1 / exactly 100 MiB in thorough) x 10 byte classes (zeros, 0xFF, random, digits, numeric-looking text, valid and invalid UTF-8, NUL/CRLF runs, chunk-framing look-alikes) x chunkings (one chunk, 1+rest, rest+1, 3 and 5 chunks, empty chunks around, one byte per chunk, 4095/4096/4097/65536 boundaries, powers of two, random partitions) through the library, the in-process HTTP service (exact chunk delivery), an in-process HttpServer over a real socket (chunked transfer encoding / Content-Length in flushed segments) and the real executable with SQLite; each upload is read back through the same path and compared byte for byte together with its ids; chains start from nil and from non-nil parents; plus pairs of uploads that overlap on a 1- and a 2-worker server (one connection sends half of its body, the other uploads completely in three chunks, the first finishes); uploads that stall for 10.5 s in mid-body; and several uploads followed by their downloads on ONE connection (keep-alive, and pipelined with all requests written before the first response is read; chunked and Content-Length bodies alternating; 1- and 3-worker servers). distinct_nontrivial = distinct (path, kind, byte class, chunking family, length class).",
         "samples": cov.samples,
         "uploads": out.executed,
         "situations_top": top.iter().take(40).map(|(k, v)| json!({"situation": k, "n": v})).collect::<Vec<_>>(),
+        "connection_level_situations": cov.situations.iter().filter(|(k, _)| k.starts_with("one-connection|") || k.starts_with("interleaved-uploads|") || k.starts_with("stalled-upload|")).map(|(k, v)| json!({"situation": k, "n": v})).collect::<Vec<_>>(),
     });
-    let required = ["stalled-upload|", "interleaved-uploads|workers=1", "Lib(Sqlite)|", "Http(Mem)|", "Http(Sqlite)|", "SocketMem|", "SocketBinary|", "chunking=five", "chunking=empty", "len~overflow-window", "len~big", "class=invalid-utf8", "class=numeric-text", "|snapshot|"];
+    let required = ["stalled-upload|", "interleaved-uploads|workers=1", "one-connection|pipelined", "one-connection|keep-alive", "Lib(Sqlite)|", "Http(Mem)|", "Http(Sqlite)|", "SocketMem|", "SocketBinary|", "chunking=five", "chunking=empty", "len~overflow-window", "len~big", "class=invalid-utf8", "class=numeric-text", "|snapshot|"];
     let verdict = if !out.found.is_empty() {
         Verdict::Violated(out.found)
     } else if !out.errors.is_empty() {
